@@ -220,7 +220,7 @@ def setStale (s : St) (c : Nat) (b : Bool) : St :=
   | some o => { s with obj := upd s.obj o { s.obj o with stale := b } }
 
 inductive Op where
-  | accept (c : Nat)                 -- AcceptConnection (ids are never reused)
+  | accept (c : Nat)                 -- AcceptConnection (an id in use is refused; a torn-down id may come back)
   | hsFail (c : Nat)                 -- Handshake packet, the auth handler refuses
   | hsChal (c : Nat) (ctl : Bool)    -- … the handler answers "challenge sent" (no field writes); waits at the gate
   | hsAuth (c x : Nat) (ctl : Bool)  -- … the handler authenticates as client x (SetClientID, SetAuthenticated); waits
@@ -238,7 +238,13 @@ deriving DecidableEq, Repr
 
 def step (v : Variant) (s : St) : Op → St
   | .accept c =>
-    if c < s.n ∧ s.opened c = false then { s with sconn := upd s.sconn c true, opened := upd s.opened c true } else s
+    if c < s.n ∧ s.opened c = false then { s with sconn := upd s.sconn c true, opened := upd s.opened c true }
+    else if c < s.n ∧ s.sconn c = false ∧ s.pend c = none then
+      -- the id comes back after its connection was torn down (CloseConnection removed the stream from the
+      -- StreamManager, so CreateStream accepts the id again): a new incarnation on a new transport
+      { s with sconn := upd s.sconn c true, closed := upd s.closed c false, broken := upd s.broken c false,
+               gone := upd s.gone c false, evicted := upd s.evicted c false }
+    else s   -- the id is in use: CreateStream refuses ("stream already exists")
   | .hsFail c =>
     if c < s.n ∧ s.pend c = none then ensureSt v s c else s
   | .hsChal c ctl =>
